@@ -556,13 +556,13 @@ theorem world_plain_withdraw_fetches_no_price {c : Ctx} (hr : flag c ACCOUNT_IN_
 theorem world_tx_every_seizure_is_priced {w w' : WState} {tx : List TOp} (h : w.runTx tx = some w')
     (h0 : ∀ (k : Nat) (a : AcctV), w.accts[k]? = some a → inRecv a = false)
     {i ai bi signer : Nat} {amount vault : Int} {all : Bool} (hi : tx[i]? = some (.ix (.withdraw ai bi signer amount all vault))) :
-    ∃ (wi : WState) (a : AcctV) (b : WBank), wi.accts[ai]? = some a ∧ wi.banks[bi]? = some b ∧
+    ∃ (wi : WState) (a : AcctV) (b : WBank), w.before tx i = some wi ∧ wi.accts[ai]? = some a ∧ wi.banks[bi]? = some b ∧
       (inRecv a = true →
         (AnyBracket tx ai ∧ 0 < i ∧ i + 1 < tx.length) ∧
         ∃ rb p, (wi.ctx a b signer b.v.liquidityVault vault).risk.find? (·.key == b.v.key) = some rb ∧
           Mfi.Risk.priceOfType rb.feed .realTime (some .low) rb.r.maxConf = .ok p ∧ 0 < p) := by
-  obtain ⟨wi, a, b, o, ha, hb, ho, hbr⟩ := tx_withdraw_in_bracket h h0 hi
-  refine ⟨wi, a, b, ha, hb, ?_⟩
+  obtain ⟨wi, a, b, o, hbef, ha, hb, ho, hbr⟩ := tx_withdraw_in_bracket h h0 hi
+  refine ⟨wi, a, b, hbef, ha, hb, ?_⟩
   intro hr
   refine ⟨hbr hr, ?_⟩
   exact world_receivership_withdraw_needs_positive_price ho hr
